@@ -106,11 +106,12 @@ def finalize(s, rng, ns=""):
 
 class Site:
     """a position holding a schema: holder[key]"""
-    __slots__ = ("holder", "key", "depth", "field", "direct")
+    __slots__ = ("holder", "key", "depth", "field", "direct", "outer")
 
-    def __init__(self, holder, key, depth, field=None, direct=False):
-        # field = the closest enclosing record field (its default constrains the type); direct = this IS the field's type
-        self.holder, self.key, self.depth, self.field, self.direct = holder, key, depth, field, direct
+    def __init__(self, holder, key, depth, field=None, direct=False, outer=()):
+        # field = the closest enclosing record field (its default constrains the type); direct = this IS the field's type;
+        # outer = the record fields enclosing that one (their JSON defaults contain a value of this type, too)
+        self.holder, self.key, self.depth, self.field, self.direct, self.outer = holder, key, depth, field, direct, outer
 
     def get(self):
         return self.holder[self.key]
@@ -123,21 +124,21 @@ def sites(top):
     """all type positions of the pinned tree held in top[0]"""
     out = []
 
-    def walk(holder, key, depth, field=None, direct=False):
-        out.append(Site(holder, key, depth, field, direct))
+    def walk(holder, key, depth, field=None, direct=False, outer=()):
+        out.append(Site(holder, key, depth, field, direct, outer))
         s = holder[key]
         if isinstance(s, list):
             for i in range(len(s)):
-                walk(s, i, depth + 1, field)
+                walk(s, i, depth + 1, field, False, outer)
         elif isinstance(s, dict):
             t = s["type"]
             if t == "array":
-                walk(s, "items", depth + 1, field)
+                walk(s, "items", depth + 1, field, False, outer)
             elif t == "map":
-                walk(s, "values", depth + 1, field)
+                walk(s, "values", depth + 1, field, False, outer)
             elif t in ("record", "error"):
                 for f in s["fields"]:
-                    walk(f, "type", depth + 1, f, True)
+                    walk(f, "type", depth + 1, f, True, outer + ((field,) if field is not None else ()))
     walk(top, 0, 0)
     return out
 
@@ -284,6 +285,8 @@ class Evolver:
     KEEP_ENCLOSING_DEFAULT = {"rename_type_alias", "rename_type_noalias", "change_namespace", "reorder_fields", "reorder_union",
                               "enum_add_symbol", "enum_reorder", "to_primdict", "promote", "demote", "enum_remove_symbol",
                               "move_definition"}
+    PURE = {"rename_type_alias", "rename_type_noalias", "change_namespace", "reorder_fields", "reorder_union", "enum_add_symbol",
+            "enum_reorder", "to_primdict", "move_definition"}
 
     def step(self, name, top, defs):
         self.last_site = None
@@ -292,6 +295,9 @@ class Evolver:
         if desc is not None and st is not None and name not in self.KEEP_ENCLOSING_DEFAULT \
                 and st.field is not None and "default" in st.field:
             del st.field["default"]       # the enclosing field's JSON default may no longer fit the changed type
+        if desc is not None and st is not None and name not in self.PURE:
+            for f in st.outer:
+                f.pop("default", None)
         return desc
 
     def step1(self, name, top, defs):
